@@ -75,7 +75,7 @@ def run(tier):
         cq = (fn.get('cls') or {}).get('q', '')
         if fn['n'] == 'transform' and cq in (PT + 'remove_content', PT + 'fold_one', PT + 'discard_empty'):
             kinds['transform'] += 1
-            probs = check_transform(fn, cq[len(PT):])
+            probs = check_transform(fn, cq[len(PT):], db)
             R.ob(ok=not probs, key=fn['disp'])
             for p in probs: R.violation('T-transform', 'contrib/parse_tree.hpp::%s::transform' % cq[len(PT):], p, key=('X', cq, p))
     R.cov['obligations_by_kind'] = dict(kinds)
@@ -117,26 +117,47 @@ def check_parse(fn):
     return probs
 
 
-def check_transform(fn, which):
+def check_transform(fn, which, db=None):
+    """the built-in transformers evaluated (sa/bits.py) over the number of children of the node: what happens to the node in each case"""
+    from ..bits import Space, Interp, St, Val, Opaque, outcomes, Unmodelled, Blowup
+    sp = Space(); sp.var('children', 3)              # 0, 1, 2 = two or more
+    it = Interp(db, sp)
+    nch = Val({0: [0, 1, 2]})
+    def node_call(itp, e, ov, av, st):
+        cn = e.get('cn') or ''
+        if isinstance(ov, Opaque) and ov.tag == 'obj:node':
+            if cn in ('operator->', 'operator*', 'get'): return iter([(ov, st)])
+            if cn == 'reset':
+                st.eff = st.eff + (('reset',),); return iter([(Opaque('void'), st)])
+            if cn == 'remove_content':
+                st.eff = st.eff + (('remove_content',),); return iter([(Opaque('void'), st)])
+            if e.get('opc') == '=' and av:
+                st.eff = st.eff + (('replace', getattr(av[0], 'tag', repr(av[0]))),); return iter([(ov, st)])
+        if isinstance(ov, Opaque) and ov.tag == 'obj:node.children':
+            if cn == 'size': return iter([(nch, st)])
+            if cn == 'empty': return iter([(Val({0: [1, 0, 0]}), st)])
+            if cn in ('front', 'back'): return iter([(Opaque('child:' + cn), st)])
+        if cn in ('move', 'forward') and av: return iter([(av[0], st)])
+        return None
+    for k in ('operator->', 'operator*', 'get', 'reset', 'remove_content', 'operator=', 'size', 'empty', 'front', 'back', 'move', 'forward'): it.intercept[k] = node_call
+    st = St(sp.full())
+    for i, p in enumerate(fn['params']): st.env[p['id']] = Opaque('obj:node') if i == 0 else Opaque('state')
+    got = {}
+    try:
+        for kind, v, s in outcomes(it, fn, st):
+            for a, b in sp.project(s.cond, 0):
+                for x in range(a, b + 1): got[x] = (kind, tuple(s.eff))
+    except (Unmodelled, Blowup) as e:
+        return ['%s::transform could not be evaluated: %s' % (which, e)]
+    want = {'remove_content': {0: ('remove_content',), 1: ('remove_content',), 2: ('remove_content',)},
+            'fold_one': {0: ('remove_content',), 1: ('replace', 'child:front'), 2: ('remove_content',)},
+            'discard_empty': {0: ('reset',), 1: ('remove_content',), 2: ('remove_content',)}}[which]
     probs = []
-    body = fn.get('body')
-    rc = walk(body, lambda n: n.get('k') == 'call' and n.get('cn') == 'remove_content', [])
-    if which == 'remove_content':
-        if len(rc) != 1 or walk(body, lambda n: n.get('k') == 'If', []): probs.append('remove_content::transform must unconditionally call remove_content on the node')
-    elif which == 'fold_one':
-        ifs = walk(body, lambda n: n.get('k') == 'If', [])
-        if len(ifs) != 1: return ['fold_one::transform: expected one test on the number of children']
-        c = ifs[0]['cond']
-        lv = leaves(c)
-        if ('call', 'size') not in lv or c.get('op') != '==' or 1 not in [(c.get('r') or {}).get('v'), (c.get('l') or {}).get('v')]: probs.append('fold_one must test children.size() == 1')
-        th = walk(ifs[0].get('then'), lambda n: n.get('k') == 'call' and n.get('cn') == 'front', [])
-        if not th: probs.append('fold_one must replace the node by its only child')
-        if not walk(ifs[0].get('else'), lambda n: n.get('k') == 'call' and n.get('cn') == 'remove_content', []): probs.append('fold_one must remove the content otherwise')
-    elif which == 'discard_empty':
-        ifs = walk(body, lambda n: n.get('k') == 'If', [])
-        if len(ifs) != 1: return ['discard_empty::transform: expected one test on the children']
-        lv = leaves(ifs[0]['cond'])
-        if ('call', 'empty') not in lv: probs.append('discard_empty must test children.empty()')
-        if not walk(ifs[0].get('then'), lambda n: n.get('k') == 'call' and n.get('cn') == 'reset', []): probs.append('discard_empty must discard (reset) a node without children')
-        if not walk(ifs[0].get('else'), lambda n: n.get('k') == 'call' and n.get('cn') == 'remove_content', []): probs.append('discard_empty must remove the content otherwise')
+    words = {0: 'no children', 1: 'exactly one child', 2: 'two or more children'}
+    for x in (0, 1, 2):
+        kind, eff = got.get(x, ('?', ()))
+        w = want[x]
+        ok = kind in ('fall', 'return') and len(eff) == 1 and eff[0][:len(w)] == w
+        if which == 'fold_one' and x == 1 and ok is False and len(eff) == 1 and eff[0][0] == 'replace' and eff[0][1] in ('child:front', 'child:back'): ok = True
+        if not ok: probs.append('%s::transform on a node with %s: %s, documented: %s' % (which, words[x], list(eff) or kind, {'remove_content': 'the content is removed', 'replace': 'the node is replaced by its only child', 'reset': 'the node is discarded'}[w[0]]))
     return probs
